@@ -255,6 +255,11 @@ class RepeatedValueWrapper(MutableSequence[_V], Generic[_M, _V]):
     def extend(self, values: Iterable[_V]) -> None:
         self._raw_wrapper.extend(self._to_raw_type(value) for value in values)
 
+    def reverse(self) -> None:
+        # One assignment, checked as a whole: the inherited reverse() swaps pair by pair and stops half-way when a
+        # later pair holds nodes, which cannot be moved while they are attached.
+        self[:] = list(self)[::-1]
+
     def pop(self, index: int = -1) -> _V:
         if not -len(self._raw_indexes) <= index < len(self._raw_indexes):
             raise IndexError('pop index out of range')
